@@ -51,6 +51,15 @@ Proof.
   exists m. split; [exact Hm|]. symmetry. apply str_eqb_spec. exact E.
 Qed.
 
+(* the cap the pad model uses is the cap written in the source (Gen_magics.v: whole PADLEFT/PADRIGHT bodies pinned by the
+   translator, so min(int(args[1]), cap) is the only path from the written width to the fill count) *)
+Lemma pad_cap_generated : gen_pad_cap_left = pad_cap /\ gen_pad_cap_right = pad_cap.
+Proof. split; vm_compute; reflexivity. Qed.
+
+(* no broad exception handler around the dispatch or around an argument fetch of a magic (generated count) *)
+Lemma discipline_generated : gen_discipline_violations = 0.
+Proof. vm_compute. reflexivity. Qed.
+
 (* the generic binding rule is what one expects (non-vacuity of `accepts`) *)
 Lemma accepts_examples :
   (* a plain def f(self, args) called bound with one argument *)
